@@ -206,6 +206,9 @@ where
                         server_pending = true;
                     }
                 }
+            } else {
+                // Nothing to wait for on the replier side until one registers
+                server_pending = true;
             }
 
             // If we've got a reply buffered already, we need to write it to the sink
@@ -247,6 +250,9 @@ where
                         let si = &mut server.as_mut().as_pin_mut().unwrap().0;
                         ready!(si.poll_flush_unpin(cx)).unwrap();
                     }
+
+                    // Nothing to wait for on the requestor side until one registers
+                    stream_pending = true;
                 }
                 // No messages are available at this time
                 Poll::Pending => {
